@@ -198,7 +198,7 @@ func (w *vVeWorld) vVeMeta(t vVeTab) *TableMetadata {
 		}
 		m.ExtendRangeKeyBounds(vVeCmp.Compare, kinds,
 			base.MakeInternalKey(vVeKey(t.Lo), base.SeqNum(t.Sh), base.InternalKeyKindRangeKeyUnset),
-			base.MakeInternalKey(vVeKey(t.Hi), base.SeqNum(t.Sl), base.InternalKeyKindRangeKeyUnset))
+			base.MakeExclusiveSentinelKey(base.InternalKeyKindRangeKeyUnset, vVeKey(t.Hi)))
 	}
 	if t.B == 0 {
 		m.InitPhysicalBacking()
@@ -710,6 +710,13 @@ func vVeRandom(rng *rand.Rand, ntabs, maxEdits int) *vVeIn {
 		if rng.Intn(3) == 0 {
 			t.Rk = 1 + rng.Intn(2)
 			t.Rkk = rng.Intn(2)
+			// a range-key table without any custom field does not survive Encode/Decode (finding, see spec): rare, inadmissible
+			if hi == lo {
+				t.Hi++
+			}
+			if t.Rkk == 0 && t.Ct == 0 && rng.Intn(30) != 0 {
+				t.Ct = 1600000000 + rng.Intn(1000000)
+			}
 		}
 		if nblob > 0 && rng.Intn(3) == 0 {
 			for id := 1; id <= nblob; id++ {
@@ -738,6 +745,9 @@ func vVeRandom(rng *rand.Rand, ntabs, maxEdits int) *vVeIn {
 					break
 				}
 				t.Lo, t.Hi = cut+1, p.Hi
+			}
+			if t.Rk != 0 && t.Lo == t.Hi {
+				t.Rk, t.Rkk = 0, 0
 			}
 			if rng.Intn(2) == 0 { // L0 needs distinct largest seqnums
 				t.Sh = p.Sh + k + 1
